@@ -18,6 +18,36 @@ import z3
 
 _CURRENT: Optional["Engine"] = None
 
+# one watchdog thread per process: z3 does not always honour its own timeout, so the context is
+# interrupted once a query has overrun its budget
+_WATCH = {"deadline": None, "ctx": None, "thread": None}
+
+
+def _watchdog():
+    while True:
+        time.sleep(0.5)
+        d = _WATCH["deadline"]
+        if d is not None and time.time() > d:
+            try:
+                _WATCH["ctx"].interrupt()
+            except Exception:
+                pass
+            _WATCH["deadline"] = time.time() + 5.0
+
+
+def _arm(ctx, seconds: float):
+    import threading
+    if _WATCH["thread"] is None or not _WATCH["thread"].is_alive() or _WATCH.get("pid") != os.getpid():
+        t = threading.Thread(target=_watchdog, daemon=True)
+        _WATCH["thread"], _WATCH["pid"] = t, os.getpid()
+        t.start()
+    _WATCH["ctx"] = ctx
+    _WATCH["deadline"] = time.time() + seconds
+
+
+def _disarm():
+    _WATCH["deadline"] = None
+
 
 def current() -> "Engine":
     if _CURRENT is None:
@@ -208,9 +238,7 @@ class Engine:
         s.add(*facts)
         s.add(*extra)          # asserted, not passed as assumptions: assumptions force the incremental core
         # z3 does not always honour its own timeout on non-linear problems: interrupt it as well
-        tm = threading.Timer(timeout_ms / 1000.0 + 2.0, s.ctx.interrupt)
-        tm.daemon = True
-        tm.start()
+        _arm(s.ctx, timeout_ms / 1000.0 + 2.0)
         if os.environ.get("SX_DUMP"):
             with open(os.environ["SX_DUMP"], "w") as fp:
                 fp.write(s.to_smt2().replace("(check-sat)", "") + "".join("(assert %s)\n" % e.sexpr() for e in extra) + "(check-sat)\n")
@@ -219,7 +247,7 @@ class Engine:
         except z3.Z3Exception:
             r = z3.unknown
         finally:
-            tm.cancel()
+            _disarm()
         return r, s
 
     # ---- counterexample guessing (never used to establish that something holds)
@@ -285,7 +313,13 @@ class Engine:
         if self.mode == "fresh":
             r, holder = self._fresh_check(self.pc, extra, self.query_timeout_ms)
         else:
-            r = self.solver.check(*extra)
+            _arm(self.solver.ctx, min(self.query_timeout_ms, 4000) / 1000.0 + 1.5)
+            try:
+                r = self.solver.check(*extra)
+            except z3.Z3Exception:
+                r = z3.unknown
+            finally:
+                _disarm()
             if str(r) == "unknown":
                 r, holder = self._fresh_check(self.pc, extra, self.query_timeout_ms)
         dt = time.time() - t0
